@@ -54,7 +54,7 @@ def run_check(chk, argv):
     broken = []          # obligations / ties that no longer check (each: str)
     # 1. translator
     try:
-        msg = core.run_extract()
+        msg = core.run_extract(pid)
         print("[%s] %s" % (pid, msg))
     except Broken as b:
         broken.append("translator (extract.py) no longer understands the source: " + b.detail)
